@@ -167,10 +167,12 @@ func (r *verifRows) Next() *SeriesRow {
 // ascending order of their key values with absent sorting last, and each series' points are intact.
 func VerifC21_GroupRead() {
 	N := vrt.Bound("N", 3)
-	keySets := [][]string{{"host"}, {"region"}, {"region", "host"}}
+	// "_measurement" and "_field" are synthetic tags the series cursor adds to Tags (not to SeriesTags)
+	keySets := [][]string{{"host"}, {"region"}, {"region", "host"}, {"_measurement"}, {"_measurement", "host"}}
 	keys := keySets[vrt.Choose("group_keys", 0, len(keySets)-1)]
 	type ser struct {
 		host, region []byte // region nil = tag absent
+		meas         []byte
 		hasData      bool
 		pt           verifPt
 		row          *SeriesRow
@@ -178,8 +180,9 @@ func VerifC21_GroupRead() {
 	var all []ser
 	var rows []*SeriesRow
 	for i := 0; i < N; i++ {
-		s := ser{host: []byte{vrt.Byte(vrt.N("host", i))}}
+		s := ser{host: []byte{vrt.Byte(vrt.N("host", i))}, meas: []byte{vrt.Byte(vrt.N("measurement", i))}}
 		vrt.Assume(s.host[0] >= 'a' && s.host[0] <= 'z')
+		vrt.Assume(s.meas[0] >= 'a' && s.meas[0] <= 'z')
 		tags := models.Tags{{Key: []byte("host"), Value: s.host}}
 		if vrt.Choose(vrt.N("has_region", i), 0, 1) == 1 {
 			s.region = []byte{vrt.Byte(vrt.N("region", i))}
@@ -187,7 +190,7 @@ func VerifC21_GroupRead() {
 			tags = append(tags, models.Tag{Key: []byte("region"), Value: s.region})
 		}
 		for _, o := range all { // distinct series
-			same := string(o.host) == string(s.host)
+			same := string(o.host) == string(s.host) && string(o.meas) == string(s.meas)
 			if (o.region == nil) != (s.region == nil) {
 				same = false
 			} else if o.region != nil {
@@ -203,7 +206,9 @@ func VerifC21_GroupRead() {
 		} else {
 			its = cursors.CursorIterators{&verifShard{}}
 		}
-		s.row = &SeriesRow{Name: []byte("m"), SeriesTags: tags, Tags: tags, Field: "v", Query: its}
+		// Tags = "_field", "_measurement" and the series tags, sorted by key ('_' sorts before a..z)
+		full := append(models.Tags{{Key: []byte("_field"), Value: []byte("v")}, {Key: []byte("_measurement"), Value: s.meas}}, tags...)
+		s.row = &SeriesRow{Name: s.meas, SeriesTags: tags, Tags: full, Field: "v", Query: its}
 		rows = append(rows, s.row)
 		all = append(all, s)
 	}
@@ -238,8 +243,11 @@ func VerifC21_GroupRead() {
 		return
 	}
 	val := func(s *ser, k string) []byte {
-		if k == "host" {
+		switch k {
+		case "host":
 			return s.host
+		case "_measurement":
+			return s.meas
 		}
 		return s.region
 	}
@@ -257,7 +265,7 @@ func VerifC21_GroupRead() {
 			tags := gc.Tags()
 			idx := -1
 			for i := range all {
-				if string(tags.Get([]byte("host"))) == string(all[i].host) && string(tags.Get([]byte("region"))) == string(all[i].region) &&
+				if string(tags.Get([]byte("host"))) == string(all[i].host) && string(tags.Get([]byte("_measurement"))) == string(all[i].meas) && string(tags.Get([]byte("region"))) == string(all[i].region) &&
 					(tags.Get([]byte("region")) == nil) == (all[i].region == nil) {
 					idx = i
 				}
